@@ -79,6 +79,7 @@ func runC10(c *Ctx) {
 	checkIntDivisions(c, p, fns)
 	checkPairwiseLoops(c, p, fns)
 	checkBufferCopiedInLoop(c, p, fns)
+	checkGrowingListRescanned(c, p, fns)
 	// R10.6 no quadratic string accumulation
 	checkStringAccumulation(c, p, fns)
 	// R10.7 lazily built parts of a document exist wherever they are used
@@ -874,4 +875,88 @@ func checkBufferCopiedInLoop(c *Ctx, p *core.Prog, fns []*ssa.Function) {
 	}
 	c.R.Check(bad == "", "R10.10", "no buffer is copied out on every round of the loop that fills it", v2pkg, fmt.Sprintf("%d byte buffers in the library's functions", nB),
 		"(*bytes.Buffer).String is called inside the loop that writes the buffer ("+bad+"): every round copies all that was written so far, so the time grows with the square of the input - a few megabytes do not come back")
+}
+
+// checkGrowingListRescanned: R10.11. A loop that, for every element it handles, walks a list to which it adds an entry per
+// element does work that grows with the square of the number of elements: the inner loop ranges over a slice (or over the
+// slice stored under a map key) that the enclosing loop appends to. With one element per occurrence of a short text - tens
+// of thousands on a megabyte-long line - Match takes minutes.
+func checkGrowingListRescanned(c *Ctx, p *core.Prog, fns []*ssa.Function) {
+	n := 0
+	for _, fn := range fns {
+		if isTraceFn(fn) {
+			continue
+		}
+		rls := rangeLoopsOf(fn)
+		var headers []*ssa.BasicBlock
+		for _, h := range fn.Blocks {
+			for _, pr := range h.Preds {
+				if h.Dominates(pr) {
+					headers = append(headers, h)
+					break
+				}
+			}
+		}
+		reported := map[string]bool{}
+		for _, rl := range rls {
+			over := core.Unspill(rl.over)
+			if _, isSl := over.Type().Underlying().(*types.Slice); !isSl {
+				continue
+			}
+			fam := sliceFamily(over)
+			var viaMap ssa.Value
+			if lk, ok := over.(*ssa.Lookup); ok {
+				viaMap = core.Unspill(lk.X)
+			}
+			inner := naturalLoop(rl.header)
+			for _, h2 := range headers {
+				if h2 == rl.header || inner[h2] {
+					continue
+				}
+				outer := naturalLoop(h2)
+				if !outer[rl.header] {
+					continue
+				}
+				grows := ""
+				for b := range outer {
+					for _, in := range b.Instrs {
+						switch x := in.(type) {
+						case *ssa.Call:
+							if bi, ok := x.Call.Value.(*ssa.Builtin); ok && bi.Name() == "append" && fam[x] {
+								grows = p.Pos(x.Pos())
+							}
+						case *ssa.MapUpdate:
+							if viaMap != nil && core.Unspill(x.Map) == viaMap {
+								if ap, ok := x.Value.(*ssa.Call); ok {
+									if bi, ok := ap.Call.Value.(*ssa.Builtin); ok && bi.Name() == "append" {
+										grows = p.Pos(x.Pos())
+									}
+								}
+							}
+						}
+					}
+				}
+				if grows == "" {
+					continue
+				}
+				what := "a slice variable of " + core.TypeName(over.Type())
+				if viaMap != nil {
+					what = "the slice stored under a key of a " + core.TypeName(viaMap.Type())
+				}
+				// keyed by the kind of list, not by the function or variable, so that the finding keeps its identity when the
+				// loop is moved into a helper
+				key := "v2: the loop over " + what + " does not re-walk a list that the enclosing loop extends"
+				if reported[key] {
+					continue
+				}
+				reported[key] = true
+				n++
+				c.R.Fail("R10.11", key, p.Pos(rl.header.Instrs[0].Pos()),
+					"in "+core.ShortFn(fn)+" the enclosing loop appends to the list (at "+grows+") that this loop walks on every round: the work grows with the square of the number of elements - a megabyte-long line with tens of thousands of occurrences of a short corpus text keeps Match busy for minutes")
+			}
+		}
+	}
+	if n == 0 {
+		c.R.OK("R10.11", "no loop re-walks a list that the enclosing loop extends", v2pkg, "range loops over slices in the library's functions examined")
+	}
 }
